@@ -760,7 +760,29 @@ def keyed_writes(res, base_pred=lambda b: True):
                     out.append((k, v, e.live, e))
             else:
                 out.append((None, a, e.live, e))
+        elif e.kind == "call" and e.data.get("name") == ".setdefault" and \
+                e.data.get("recv") is not None and \
+                base_pred(e.data["recv"]) and len(e.data["args"]) == 2:
+            # d.setdefault(k, v): d[k] = v where k is absent
+            k, v = e.data["args"]
+            out.append((k, v, tm.mk_and(e.live, T("cmp", "NotIn", k,
+                                                  root_object(
+                                                      e.data["recv"]))), e))
     return out
+
+
+def root_object(t: T) -> T:
+    """the object a (loop-carried / mutated) container value started as"""
+    for _ in range(12):
+        if t.op == "loopvar":
+            t = t.args[2]
+        elif t.op == "loopout":
+            t = t.args[2]
+        elif t.op in ("mut", "upd"):
+            t = t.args[0]
+        else:
+            break
+    return t
 
 
 # ------------------------------------------------- position algebra
